@@ -172,11 +172,16 @@ def _alarm_handler(signum, frame):
 
 
 def _arm(seconds):
+    """watchdog = `seconds` of CPU time of this process (immune to machine load: a spinning hang burns CPU)
+    plus 10x that in wall-clock time (catches blocking hangs).  Both repeat, so a swallowed Hang is raised again."""
+    signal.signal(signal.SIGPROF, _alarm_handler)
     signal.signal(signal.SIGALRM, _alarm_handler)
-    signal.setitimer(signal.ITIMER_REAL, seconds)
+    signal.setitimer(signal.ITIMER_PROF, seconds, seconds)
+    signal.setitimer(signal.ITIMER_REAL, seconds * 10, seconds * 10)
 
 
 def _disarm():
+    signal.setitimer(signal.ITIMER_PROF, 0)
     signal.setitimer(signal.ITIMER_REAL, 0)
 
 
@@ -209,7 +214,7 @@ def _run_shard(idx_shard):
         cfg["tier"],
         cfg["seed"],
         deadline=cfg["deadline"],
-        watchdog_s=getattr(mod, "WATCHDOG_S", 5.0),
+        watchdog_s=float(os.environ.get("MC_WATCHDOG_S", getattr(mod, "WATCHDOG_S", 5.0))),
         hang_is_violation=getattr(mod, "HANG_IS_VIOLATION", False),
     )
     t0 = time.time()
@@ -305,15 +310,15 @@ def do_replay(mod, path):
         mod.ID,
         "quick",
         int(os.environ.get("VERIF_SEED", "0")),
-        watchdog_s=max(30.0, getattr(mod, "WATCHDOG_S", 5.0) * 6),
+        watchdog_s=max(10.0, getattr(mod, "WATCHDOG_S", 5.0) * 3),
         hang_is_violation=getattr(mod, "HANG_IS_VIOLATION", False),
     )
     if hasattr(mod, "setup"):
         mod.setup()
     if isinstance(case, tuple) and len(case) == 2 and case[0] == "shard":
-        mod.run_shard(case[1], ctx)
+        ctx.guard(case, mod.run_shard, case[1], ctx, seconds=600)
     else:
-        mod.replay(case, ctx)
+        ctx.guard(case, mod.replay, case, ctx, hang_key=rec.get("key") if "HANG" in str(rec.get("key")) else None)
     want = rec.get("key")
     keys = list(ctx.violations)
     for k, v in ctx.violations.items():
